@@ -1,0 +1,20 @@
+//go:build verif
+
+package v2
+
+import (
+	isessions "github.com/nspcc-dev/neofs-node/internal/sessions"
+)
+
+// NewVerif is [New] with a private object sessions cache (the cache type lives
+// in an internal package and cannot be constructed by the verification harness
+// kept outside this repository). The returned function purges all token check
+// caches the same way the node does on every new epoch.
+func NewVerif(fsChain FSChain, sessionsCacheSize int, opts ...Option) (Service, func()) {
+	cache := isessions.NewObjectSessionsCache(sessionsCacheSize)
+	svc := New(fsChain, cache, opts...)
+	return svc, func() {
+		cache.ResetCache()
+		svc.ResetTokenCheckCache()
+	}
+}
